@@ -39,6 +39,8 @@ type shFrame struct {
 	wordStart bool // nothing but an opening quote consumed in this word so far
 	parenDepth int
 	expIdx     int // index+1 of the expansion record this ${ } frame belongs to
+	curCmd     *BashCmd
+	lead       string
 }
 
 // HoleCtx describes the lexical position of one hole occurrence.
@@ -71,8 +73,19 @@ type ExpCtx struct {
 	Op     string // "#" for ${#x}, ":" for substring, "[" for subscript, "" plain
 }
 
+// BashCmd is one simple command of a line: its words with quotes removed
+// (\x00 marks a hole, \x01 a number).
+type BashCmd struct {
+	Name  string
+	Words []string // arguments (without the command word)
+	Lead  string   // keyword directly before the command: if, then, else, elif, do, while ...
+	Depth int      // nesting depth of command substitutions
+	Redirs []string
+}
+
 // BashLine is the result of scanning one line template.
 type BashLine struct {
+	Cmds     []*BashCmd
 	Exps     []ExpCtx
 	Holes    []HoleCtx
 	Closed   bool   // all quotes/substitutions closed at end of line
@@ -178,6 +191,7 @@ func (s *bashScanner) endWord() {
 		case bashKeywordsStart[w]:
 			// keyword: the command word is still to come
 			s.keyword(w)
+			f.lead = w
 			return
 		case w == "fi" || w == "done" || w == "}" || w == "esac":
 			s.keyword(w)
@@ -191,9 +205,21 @@ func (s *bashScanner) endWord() {
 			f.cmd = w
 		}
 		s.out.Commands = append(s.out.Commands, f.cmd)
+		depth := 0
+		for _, fr := range s.stack {
+			if fr.kind == ctxCmd {
+				depth++
+			}
+		}
+		f.curCmd = &BashCmd{Name: f.cmd, Lead: f.lead, Depth: depth - 1}
+		f.lead = ""
+		s.out.Cmds = append(s.out.Cmds, f.curCmd)
 		return
 	}
 	f.words++
+	if f.curCmd != nil {
+		f.curCmd.Words = append(f.curCmd.Words, w)
+	}
 }
 
 func (s *bashScanner) keyword(w string) {
@@ -227,6 +253,7 @@ func (s *bashScanner) endCommand() {
 	f.cmd = ""
 	f.cmdDone = false
 	f.words = 0
+	f.curCmd = nil
 }
 
 func (s *bashScanner) scanParts(t Tmpl) {
